@@ -219,6 +219,8 @@ def neutral(it, result, label_obj=None, new_structs=()):
     """ghost reference counts at exit: +1 exactly for the returned object (if any), +1 per pointer field of a trait record
     created during the call (the new object legitimately owns what its fields point to), 0 for everything else"""
     bad = []
+    if getattr(it.st, "rec_depth", 0) != 0:
+        bad.append("Py_EnterRecursiveCall / Py_LeaveRecursiveCall unbalanced: depth %+d at exit" % it.st.rec_depth)
     held = {}
     for st_ in new_structs:
         for f_, v_ in st_.f.items():
@@ -516,6 +518,62 @@ def _trait_lookup_body(ex, o, name, which, raising):
     return {"name": name}
 
 
+def delegate_access_harness(ex):
+    """reads, writes and deletes THROUGH deferring traits (getattr_delegate / setattr_delegate) under ghost counts: a proper
+    delegate, None, a delegate lacking the attribute, a prototype with a local value, and a delegation cycle (the walk gives up
+    after 100 levels) - success and every error exit reference-neutral"""
+    from traits.api import DelegatesTo, PrototypedFrom
+    state = ex.choice("delegate", 4)       # 0: proper, 1: None, 2: lacks the attribute, 3: cycle
+    op = ex.choice("op", 4)                # 0 read, 1 write valid, 2 write invalid, 3 delete
+    if state == 3:
+        o, b = _Cyc(), _Cyc()
+        o.__dict__["other"], b.__dict__["other"] = b, o
+        name = "v"
+    else:
+        class Tgt(HasTraits):
+            x = Int(1)
+            pre_y = Int(2)
+
+        class Other(HasTraits):
+            pass
+
+        class D(HasTraits):
+            t = Instance(HasTraits)
+            x = DelegatesTo("t")
+            y = PrototypedFrom("t", prefix="pre_*")
+            z = DelegatesTo("t", prefix="x")
+
+        o = D()
+        if state == 0:
+            o.__dict__["t"] = Tgt()
+        elif state == 2:
+            o.__dict__["t"] = Other()
+        name = ["x", "y", "z"][ex.choice("name", 3)]
+    it = cenv.new_interp()
+    os_ = cenv.hastraits_struct(it, o)
+    it.st.rc.clear()
+    problem = None
+    r = NULL
+    try:
+        with cenv.python_side_env():
+            if op == 0:
+                r = it.call("has_traits_getattro", [os_, name])
+                if r is NULL and it.st.err is None:
+                    problem = "NULL without an exception"
+            else:
+                val = {1: 7, 2: "not an int", 3: NULL}[op]
+                rc = it.call("has_traits_setattro", [os_, name, val])
+                if rc != 0 and it.st.err is None:
+                    problem = "-1 without an exception"
+    except MemSafety as e:
+        problem = str(e)
+    ex.check(problem is None, "access through deferring traits is memory-safe")
+    if problem is None:
+        bad = neutral(it, r)
+        ex.check(not bad, "access through deferring traits is reference-neutral on success and on every error exit")
+    return {"state": state, "op": op}
+
+
 def notify_mutation_harness(ex):
     """a handler that removes itself (or adds another one) while call_notifiers is dispatching"""
     trait_level = ex.flag("trait_level_handler_too")
@@ -631,6 +689,11 @@ def obligations(tier, build):
                                              "look-up natively)",
                           bounds={"instance mode": "symbolic Int in [-3, 3]", "delegate": "proper / None / attribute missing"},
                           leverage="the instance mode; otherwise choice feasibility"))
+    obs.append(Obligation("access/delegate", delegate_access_harness, stubs=STUBS, witness_every=0,
+                          bounds={"delegate": ["proper", "None", "lacks the attribute", "cycle (100 levels)"],
+                                  "operations": ["read", "write valid", "write invalid", "delete"],
+                                  "deferring traits": ["DelegatesTo", "PrototypedFrom prefix*", "DelegatesTo modify explicit name"]},
+                          leverage="choice feasibility only (heap objects); ghost reference counts"))
     obs.append(Obligation("access/property", property_harness, stubs=STUBS, witness_every=0,
                           bounds={"getter/setter arities": "0-3", "validated property": "yes", "operations": "read, write, delete, invalid value, failing setter"},
                           leverage="choice feasibility only"))
